@@ -14,9 +14,9 @@
    so each is one atomic step of the machine. *)
 From PV Require Export Base.Bytes.
 
-Definition key := bytes.
-Definition tuple := list Z.
-Definition dict := list (key * tuple).
+Notation key := bytes (only parsing).
+Notation tuple := (list Z) (only parsing).
+Notation dict := (list (bytes * list Z)) (only parsing).
 
 Fixpoint lookup {A} (k : bytes) (d : list (bytes * A)) : option A :=
   match d with
